@@ -755,6 +755,10 @@ SWITCHES = {"set_default_dtype", "set_default_device", "set_default_tensor_type"
             "set_float32_matmul_precision", "set_printoptions", "set_anomaly_enabled", "set_detect_anomaly"}
 MODE_READS = {"is_grad_enabled", "is_inference_mode_enabled", "is_autocast_enabled", "is_anomaly_enabled", "are_deterministic_algorithms_enabled",
               "get_default_dtype", "get_num_threads", "get_rng_state", "initial_seed"}
+VIEWLIKE = {"permute", "contiguous", "view", "reshape", "transpose", "squeeze", "unsqueeze", "expand", "expand_as", "narrow", "select",
+            "detach", "to", "float", "double", "half", "type", "type_as", "flatten", "unflatten", "view_as", "view_as_real", "view_as_complex",
+            "movedim", "swapaxes", "t", "real", "imag", "unbind", "split", "chunk", "cpu", "cuda", "requires_grad_", "as_strided", "diagonal",
+            "unfold", "moveaxis", "squeeze_", "unsqueeze_", "resolve_conj", "conj"}
 MEMO = {"lru_cache", "cache", "cached_property", "memoize", "memoized"}
 
 
@@ -817,8 +821,76 @@ def scan_effects(name: str, fn: ast.FunctionDef, cls, fidx: FileIndex) -> list[t
                 if isinstance(s, ast.Name) and s.id in params:
                     rebound[s.id] = min(rebound.get(s.id, 10 ** 9), n.lineno)
 
+    # may-alias analysis, in source order: a name aliases a caller's tensor when it is a parameter, or was last assigned a
+    # view-like expression (`permute`, `contiguous` — which returns its argument when that is already contiguous —, `view`,
+    # `reshape`, `transpose`, `squeeze`, `to`, slicing, a keyword argument `kwargs[...]`, a plain name, …) of such a name
+    assigns = []
+    for n in ast.walk(fn):
+        if id(n) in default_init:
+            continue
+        if isinstance(n, ast.Assign):
+            for t in n.targets:
+                assigns.append((n.lineno, t, n.value))
+        elif isinstance(n, ast.AnnAssign) and n.value is not None:
+            assigns.append((n.lineno, n.target, n.value))
+        elif isinstance(n, ast.For):
+            assigns.append((n.lineno, n.target, n.iter))
+    assigns.sort(key=lambda a: a[0])
+    all_params = params | ({fn.args.kwarg.arg} if fn.args.kwarg else set()) | ({fn.args.vararg.arg} if fn.args.vararg else set())
+
+    def alias_of(value, state) -> bool:
+        if isinstance(value, ast.Name):
+            return state.get(value.id, False)
+        if isinstance(value, (ast.Attribute, ast.Subscript, ast.Starred)):
+            if isinstance(value, ast.Attribute) and value.attr in ("shape", "dtype", "device", "ndim"):
+                return False
+            return alias_of(value.value, state)
+        if isinstance(value, ast.IfExp):
+            return alias_of(value.body, state) or alias_of(value.orelse, state)
+        if isinstance(value, ast.Call):
+            f = value.func
+            if isinstance(f, ast.Attribute) and f.attr in VIEWLIKE:
+                if _is_torch_ns(f.value) or ast.unparse(f.value) == "torch":
+                    return bool(value.args) and alias_of(value.args[0], state)
+                return alias_of(f.value, state)
+            if isinstance(f, ast.Attribute) and f.attr in ("get", "pop") and isinstance(f.value, ast.Name):
+                return state.get(f.value.id, False)
+        return False
+
+    branches = []
+    for n in ast.walk(fn):
+        if isinstance(n, ast.If):
+            b = {id(x) for st in n.body for x in ast.walk(st)}
+            o = {id(x) for st in n.orelse for x in ast.walk(st)}
+            branches.append((b, o))
+
+    def alias_state(lineno: int, node=None) -> dict:
+        state = {p: True for p in all_params}
+        other = set()                      # statements of the sibling branches of every `if` the node sits in: not on its path
+        if node is not None:
+            for b, o in branches:
+                if id(node) in b:
+                    other |= o
+                elif id(node) in o:
+                    other |= b
+        for ln, target, value in assigns:
+            if ln >= lineno:
+                break
+            if id(value) in other:
+                continue
+            if isinstance(target, ast.Name):
+                state[target.id] = alias_of(value, state)
+            elif isinstance(target, (ast.Tuple, ast.List)):
+                al = alias_of(value, state) and not (isinstance(value, ast.Attribute) and value.attr == "shape")
+                for el in target.elts:
+                    if isinstance(el, ast.Name):
+                        state[el.id] = al
+        return state
+
     def is_input(nm: str, node) -> bool:
-        return nm in params and getattr(node, "lineno", 0) <= rebound.get(nm, 10 ** 9) and id(node) not in default_init
+        if id(node) in default_init or nm in ("self", "cls"):
+            return False
+        return alias_state(getattr(node, "lineno", 0), node).get(nm, False)
 
     def add(kind, detail):
         rows.append((name, kind, detail[:60]))
@@ -943,7 +1015,7 @@ def trace_models(repo: pathlib.Path):
 
     try:
         from props import c18 as P
-        extra_entries = list(getattr(P, "extra_entries", lambda: [])())
+        extra_entries = list(getattr(P, "extra_entries", lambda: [])()) + list(getattr(P, "optional_arg_entries", lambda: [])())
         unusable = set(getattr(P, "_UNUSABLE", ()))
     except Exception:  # noqa: BLE001
         extra_entries, unusable, P = [], set(), None
